@@ -59,7 +59,8 @@ def enc_runs(runs):
 
 
 def model_line(sc):
-    plan = "/".join(sc.get("plan", {}).get(n, "") or "-" for n in CBS)
+    # (the plan characters of real-only scenarios — "z" a slow handler, "n" a nested run — are plain returns for the model/Spec)
+    plan = "/".join("".join(ch if ch in "orck" else "o" for ch in sc.get("plan", {}).get(n, "")) or "-" for n in CBS)
     to = "N" if sc.get("to") is None else str(sc["to"])
     pl = sc.get("payload", "").encode().hex() or "-"
     cfg = ",".join([str(sc.get("cbs", ALL)), str(sc.get("iv", 0)), to, pl, str(sc.get("rc", 0)),
@@ -317,6 +318,10 @@ def run_real(sc, line_preempt=None, wall_s=20.0, max_steps=6000):
                 raise KeyboardInterrupt()
             if a == "c":
                 app.close()
+            if a == "n" and sc.get("nested_run"):
+                # (real runs only) run_forever() again on the same object from inside this callback
+                net.begin_run(outcomes_of(sc["nested_run"]))
+                s.emit("ret", app.run_forever(**holder["rf"]))
             if a == "z":
                 # (real runs only) a handler that TAKES TIME: `cb_delay` ticks pass inside the callback
                 s.block(None, s.now + int(sc.get("cb_delay", 1)))
@@ -369,6 +374,7 @@ def run_real(sc, line_preempt=None, wall_s=20.0, max_steps=6000):
         rf["reconnect"] = None if sc["rc_arg"] == "none" else simsched.secs(sc["rc_arg"])
     if sc.get("skip"):
         rf["skip_utf8_validation"] = True
+    holder["rf"] = rf
     import websocket._app as _A
     saved_rc = _A.RECONNECT
     alive = []
